@@ -54,6 +54,16 @@ def handle (op : String) (args res : List String) : Option String :=
             else none)).getD (some "unparseable")
       | _ => some "impl-output-arity"
     pure (verdictP model res prop)
+  | "cucont", [a, b] => do
+    -- Contains with an ARBITRARY list of cell ids as argument (duplicates, overlaps, unsorted: Contains only iterates over its
+    -- argument; Intersects binary-searches in it and is therefore not asked here); the receiver is normalized.  Judge: leaf sets.
+    let x ← parseCU? a; let y ← parseCU? b
+    let model := [showBool (containsCU x y)]
+    let cx := canon x; let cy := canon y
+    let prop : Option String := match res with
+      | [gc] => if gc != showBool (runsSubset cy cx) then some "contains-vs-leaf-sets" else none
+      | _ => some "impl-output-arity"
+    pure (verdictP model res prop)
   | "cuinterid", [a, b] => do
     let x ← parseCU? a; let id ← parseU64? b
     let model := [showCU (intersectionWithCellID x id)]
